@@ -28,3 +28,11 @@ Definition prim_to_index (t : Token) : result Index ParseIndexError :=
   | Ok i => Ok (gen_index_of i)
   | Err e => Err (gen_pie_of (cow_text (Token_inner t)) e)
   end.
+
+(* `s.parse::<usize>()` on the generated error type: the hand-written [parse_usize] (Model/Index.v) *)
+Definition prim_parse_usize (s : str) : result N ParseIntError :=
+  match parse_usize s with
+  | Ok n => Ok n
+  | Err IntEmpty => Err ParseIntError_Empty
+  | Err IntPosOverflow => Err ParseIntError_PosOverflow
+  end.
